@@ -33,7 +33,17 @@ theorem pump_drains (fuel : Nat) (s : St) (hq : Inv s.fifo) (hl : s.leader = tru
         · show 2 * pendCount s + _ < fuel
           simp only [Option.isSome_none, Bool.false_eq_true, if_false]
           omega
-      · rw [if_neg hk, if_pos hu]
+      · rw [if_neg hk]
+        by_cases hbad : k ∈ s.undecodable
+        · rw [if_pos hbad]
+          apply ih
+          · exact hq
+          · rfl
+          · exact hu
+          · show 2 * pendCount s + _ < fuel
+            simp only [Option.isSome_none, Bool.false_eq_true, if_false]
+            omega
+        rw [if_neg hbad, if_pos hu]
         apply ih
         · exact hq
         · rfl
